@@ -19,14 +19,16 @@ import (
 
 // Keyer computes keys for the values of one function.
 type Keyer struct {
-	P        *Prog
-	Fn       *ssa.Function
-	memo     map[ssa.Value]string
-	visit    map[ssa.Value]bool
-	ids      map[ssa.Instruction]string
-	spill    map[*ssa.Alloc]ssa.Value // allocs that only hold a spilled value
-	captured map[*ssa.Alloc]bool
-	Opaque   map[*ssa.Function]bool // callees never inlined (rules refer to them by name)
+	P            *Prog
+	Fn           *ssa.Function
+	memo         map[ssa.Value]string
+	visit        map[ssa.Value]bool
+	ids          map[ssa.Instruction]string
+	spill        map[*ssa.Alloc]ssa.Value // allocs that only hold a spilled value
+	captured     map[*ssa.Alloc]bool
+	Opaque       map[*ssa.Function]bool // callees never inlined (rules refer to them by name)
+	fieldSpill   map[*ssa.Alloc]ssa.Value
+	fieldWritten map[*ssa.Alloc]map[int]bool
 	// NormGetters keys calls of generated protobuf getters like loads of the field they return.
 	NormGetters bool
 }
@@ -87,6 +89,68 @@ func (k *Keyer) findSpills() {
 	for a, vs := range whole {
 		if len(vs) == 1 && !partial[a] && !k.captured[a] {
 			k.spill[a] = vs[0]
+		}
+	}
+	// field-sensitive refinement: a struct local holding a copy of one value (typically a by-value
+	// parameter) of which only some fields are assigned later (`vote.Deferred = true`): the other
+	// fields still are the fields of the copied value.
+	k.fieldSpill = map[*ssa.Alloc]ssa.Value{}
+	k.fieldWritten = map[*ssa.Alloc]map[int]bool{}
+	for a, vs := range whole {
+		if len(vs) != 1 || !partial[a] || k.captured[a] {
+			continue
+		}
+		if _, isStruct := a.Type().Underlying().(*types.Pointer).Elem().Underlying().(*types.Struct); !isStruct {
+			continue
+		}
+		written := map[int]bool{}
+		ok := true
+		for _, b := range k.Fn.Blocks {
+			for _, in := range b.Instrs {
+				st, isSt := in.(*ssa.Store)
+				if !isSt || st.Addr == ssa.Value(a) || rootAlloc(st.Addr) != a {
+					continue
+				}
+				// first-level selector below the alloc
+				v := st.Addr
+				for {
+					var base ssa.Value
+					switch x := v.(type) {
+					case *ssa.FieldAddr:
+						base = x.X
+						if base == ssa.Value(a) {
+							written[x.Field] = true
+						}
+					case *ssa.IndexAddr:
+						base = x.X
+						if base == ssa.Value(a) {
+							ok = false
+						}
+					}
+					if base == nil || base == ssa.Value(a) {
+						break
+					}
+					v = base
+				}
+			}
+		}
+		// the address must not escape (passed to a call, stored, captured): only loads and field selections
+		if refs := a.Referrers(); refs != nil {
+			for _, r := range *refs {
+				switch x := r.(type) {
+				case *ssa.Store:
+					if x.Val == ssa.Value(a) {
+						ok = false
+					}
+				case *ssa.FieldAddr, *ssa.UnOp, *ssa.DebugRef:
+				default:
+					ok = false
+				}
+			}
+		}
+		if ok {
+			k.fieldSpill[a] = vs[0]
+			k.fieldWritten[a] = written
 		}
 	}
 }
@@ -233,6 +297,11 @@ func (k *Keyer) key(v ssa.Value) string {
 		}
 		return "alloc@" + k.ids[x]
 	case *ssa.FieldAddr:
+		if a, ok := x.X.(*ssa.Alloc); ok {
+			if sv, ok := k.fieldSpill[a]; ok && !k.fieldWritten[a][x.Field] {
+				return "&" + k.Key(sv) + "." + fieldName(x.X.Type(), x.Field)
+			}
+		}
 		return "&" + k.path(x.X, fieldName(x.X.Type(), x.Field))
 	case *ssa.Field:
 		return k.Key(x.X) + "." + fieldName(x.X.Type(), x.Field)
